@@ -35,7 +35,7 @@ func memZeroTail(m *MemoryInstance) bool {
 	return verif_forall(func(i int) bool { return !(len(m.Buffer) <= i && i < cap(m.Buffer)) || m.Buffer[i] == 0 })
 }
 
-//@ prop C14 C02 C15
+//@ prop C14 C02 C15 C12
 //@ func (m *MemoryInstance) hasSize(offset uint32, byteCount uint64) bool
 //@   requires byteCount <= 1<<48
 //@   ensures r0 == (uint64(offset)+byteCount <= uint64(len(m.Buffer)))
@@ -146,17 +146,18 @@ func memoryGrownCalls() int { return verif_ghost_int("memoryGrown") }
 //@   modifies *slice
 
 //@ func (m *MemoryInstance) Grow(delta uint32) (result uint32, ok bool)
-//@   requires memInv(m) && memZeroTail(m)
-//@   requires m.expBuffer == nil && m.ownerModuleEngine != nil
+//@   requires memInv(m) && (m.expBuffer == nil ==> memZeroTail(m))
+//@   requires m.ownerModuleEngine != nil && (m.expBuffer != nil ==> !m.Shared)
 //@   requires m.Shared ==> m.Cap == m.Max
-//@   ensures[ok-iff-within-max] ok == (delta == 0 || uint64(old(len(m.Buffer)))>>16 + uint64(delta) <= uint64(m.Max))
+//@   ensures[ok-only-within-max] ok ==> (delta == 0 || uint64(old(len(m.Buffer)))>>16 + uint64(delta) <= uint64(m.Max))
+//@   ensures[within-max-succeeds] old(m.expBuffer == nil) && (delta == 0 || uint64(old(len(m.Buffer)))>>16 + uint64(delta) <= uint64(m.Max)) ==> ok
 //@   ensures[returns-previous-size] ok ==> result == uint32(uint64(old(len(m.Buffer))) >> 16)
 //@   ensures[new-size] ok ==> uint64(len(m.Buffer)) == uint64(old(len(m.Buffer))) + uint64(delta)<<16
 //@   ensures[failure-changes-nothing] !ok ==> len(m.Buffer) == old(len(m.Buffer)) && result == 0 && verif_slice_at(m.Buffer, old(m.Buffer), 0)
-//@   ensures[inv] memInv(m) && memZeroTail(m)
+//@   ensures[inv] memInv(m) && (old(m.expBuffer == nil) ==> memZeroTail(m))
 //@   ensures[limits-unchanged] m.Max == old(m.Max) && m.Min == old(m.Min) && m.Shared == old(m.Shared)
-//@   ensures[contents-preserved] forall i int :: 0 <= i && i < old(len(m.Buffer)) ==> m.Buffer[i] == old[byte](m.Buffer[i])
-//@   ensures[new-pages-zero] forall i int :: old(len(m.Buffer)) <= i && i < len(m.Buffer) ==> m.Buffer[i] == 0
+//@   ensures[contents-preserved] old(m.expBuffer == nil) ==> forall i int :: 0 <= i && i < old(len(m.Buffer)) ==> m.Buffer[i] == old[byte](m.Buffer[i])
+//@   ensures[new-pages-zero] old(m.expBuffer == nil) ==> forall i int :: old(len(m.Buffer)) <= i && i < len(m.Buffer) ==> m.Buffer[i] == 0
 //@   ensures[shared-never-moves] m.Shared ==> verif_slice_at(m.Buffer, old(m.Buffer), 0)
 //@   ensures[engine-notified] memoryGrownCalls() == old(memoryGrownCalls()) + b2i(ok && delta != 0)
 //@   modifies m.Buffer, m.Cap, elems(m.Buffer), ghost("memoryGrown")
@@ -285,7 +286,9 @@ func closedWord(m *ModuleInstance) uint64 { return m.Closed.Load() }
 //@   modifies nothing
 //@ iface (a experimental.MemoryAllocator) Allocate(cap, max uint64) experimental.LinearMemory
 //@   modifies nothing
+// (documented: "Reallocates the linear memory to size bytes in length", nil on failure)
 //@ iface (l experimental.LinearMemory) Reallocate(size uint64) []byte
+//@   ensures r0 == nil || len(r0) == int(size)
 //@   modifies nothing
 
 // ASSUMED frame: the ref.func resolver handed to initialize does not write instance state.
